@@ -514,4 +514,7 @@ def run(ctx: Ctx, repo: Repo, tier: str) -> None:
     # "the output equals what the decodable traces alone would produce": a stale class name is not decoded to some other class
     from . import c08 as _c08
     ctx.attempt(_c08.rule_no_impostor, ctx, repo)
+    # every stored row of the module reaches the decoder (a row the query hides is neither decoded nor counted as skipped)
+    from . import c09 as _c09
+    ctx.attempt(_c09.rule_query, ctx, repo)
     ctx.settle()
